@@ -1,4 +1,93 @@
-"""C13 — not built yet."""
+"""C13 — field-mask filtered serialization emits exactly the selected data (DESIGN.md §5.13)."""
+import json, os
+from vlib import core
+
+THEOREMS = ["Props.C13." + t for t in [
+    "precount_map", "precount_list_repaired", "precount_list_partial", "masked_write_wellformed_partial",
+    "masked_write_restrict", "masked_read_restrict", "nil_mask_is_std_write", "nil_mask_is_std_read",
+    "required_still_written", "nonrequired_filtered_absent_partial", "halfway"]]
+
+DOCUMENTED = {
+    "precount-list-header-mismatch", "precount-set-header-mismatch", "black-all-container-header-mismatch",
+    "zero-required-writes-nonrequired", "zero-required-rejects-union-field", "required-black-submask-applied",
+    "union-field-white-unselectable", "union-field-black-unfilterable",
+    "read:union-field-white-unselectable", "read:union-field-black-unfilterable",
+}
+
+PARTIAL = [
+    "precount_list: FALSE as coded (the list/set pre-count loop mutates its own bound: n=3, selected {0} => 2; n=2, nothing selected => 1; "
+    "witnesses decided in Props/C13.lean and replayed by the directed unit); proved for the map variant (precount_map), for the repaired "
+    "loop (precount_list_repaired) and, for the loop as coded, under the hypothesis that the unselected indices form a suffix... see docs/C13.md",
+    "masked_write_wellformed: false today for lists/sets (witness decided); proved for Tpl.repaired / white masks (masked_write_wellformed_partial)",
+    "nonrequired_filtered_absent: false under field_mask_zero_required (the else-branch is emitted for every field; witness decided); proved when "
+    "the option is off or the template is repaired",
+]
+
+
 def run(ctx):
-    print("C13: no check built yet")
-    return 2
+    exe = ctx.go_build("c13")
+    exe14 = ctx.go_build("c14")
+    ctx.partial += PARTIAL
+    ctx.trusted += [
+        "translator harness/cmd/c13 extract (shape of templates.FieldWriteList/FieldWriteSet pre-count loop and of the zero-value else-branch of "
+        "templates.StructLikeWriteField, read from the template texts of the tree under test) -> Generated/C13.lean",
+        "translator harness/cmd/c14 extract (panic-site / repair table of the fieldmask library, probed) -> Generated/C14.lean",
+        "correspondence: generated code (with_reflection,with_field_mask x {default, field_mask_halfway, field_mask_zero_required}) compiled in one "
+        "batch and driven by reflection; masks built by the real fieldmask.NewFieldMask from GetTypeDescriptor(); bytes canonicalised by a recording "
+        "TProtocol (structure from Begin/End calls, map entries sorted) vs tv_c13 (C14 mask model + Gen.Mask)",
+        "oracle: refcodec (strict reference decoder) and `restrict` computed from the abstract path set (harness/cmd/c13/oracle.go)",
+    ]
+    ctx.assumptions += [
+        "apache/thrift v0.13.0 TBinaryProtocol = Core.Wire primitives; protocol Skip = strict untyped decode to depth 64",
+        "thrift_reflection lookups (GetTypeDescriptor, field by name/id, typedef unwrapping) as modelled by the C14 schema sent on the D line "
+        "(typedef-free, one name per struct-like; unions and exceptions are not structs for the library)",
+        "Go map iteration order does not matter (entries sorted on both sides before comparison)",
+        "a generated object is written once (Write stores the masks of children in the children: a second Write under field_mask_halfway would see them)",
+    ]
+    if exe:
+        rc, gen = core.sh([exe, "extract"])
+        ok = rc == 0 and "def tpl" in gen
+        ctx.obligation("translator:c13-extract", ok, "" if ok else gen[-2000:])
+        if ok:
+            ctx.write_generated("C13", gen)
+            ctx.notes.append("template shape: " + gen.split("{", 1)[1].split("}", 1)[0].strip())
+    if exe14:
+        rc, gen = core.sh([exe14, "extract"])
+        ok = rc == 0 and "def sites" in gen
+        ctx.obligation("translator:c14-extract(sites)", ok, "" if ok else gen[-2000:])
+        if ok:
+            ctx.write_generated("C14", gen)
+    built = ctx.lake_build(["ThriftVerif.Props.C13"], "lake-build:Props.C13")
+    drv = ctx.lake_build(["tv_c13"], "lake-build:tv_c13")
+    if built:
+        ctx.audit("C13", THEOREMS)
+        if ctx.tier == "thorough":
+            ctx.leanchecker(["ThriftVerif.Props.C13"])
+    if exe:
+        seed = ctx.seed
+        want = None
+        if ctx.replay:
+            doc = json.load(open(ctx.replay))
+            seed, want = doc.get("seed", seed), doc.get("key")
+        rc, out = core.sh([exe, "run", "-repo", core.REPO, "-dir", ctx.work, "-seed", str(seed), "-tier", ctx.tier], timeout=3400)
+        if rc not in (0, 1) or not os.path.exists(os.path.join(ctx.work, "stats.json")):
+            raise core.MachineryError("c13 run failed: " + out[-3000:])
+        st = json.load(open(os.path.join(ctx.work, "stats.json")))
+        ctx.cov.update(evaluations=st["evaluations"], distinct_nontrivial=st["distinct_nontrivial"], samples=st["samples"] or [],
+                       distribution=st["distribution"], programs=sum(v for k, v in st["distribution"].items() if k.startswith("unit.options.")))
+        fails = sorted(st.get("oracle_failures") or [], key=lambda f: f["key"] in DOCUMENTED)
+        for f in fails:
+            if want and f["key"] != want:
+                continue
+            ctx.add_violation(f["key"], f["what"], f["input"], f["expected"], f["observed"])
+        if drv:
+            ops = os.path.join(ctx.work, "ops.txt")
+            model = ctx.run_model("tv_c13", ops)
+            ctx.diff_lines("c13:Gen.Mask-vs-generated-code", ops, os.path.join(ctx.work, "impl.txt"), model)
+            if not ctx.cov.get("samples"):
+                ctx.cov["samples"] = [l[:400] for l in open(ops).read().split("\n") if l.startswith(("MW ", "MR "))][:6]
+    return ctx.finish(rule="(program, option set, struct, value, mask) cases: idlgen programs + 2 directed programs x {default, field_mask_halfway, "
+                           "field_mask_zero_required}; values from valgen (lists grown to >= 4); masks = abstract path-set trees guided by the value "
+                           "(fields by name/id, indices in/out of range in prefix/suffix/singleton/alternating shapes, present/absent keys, '*', nested), "
+                           "white and black, nil mask, masks pre-set on children; ops MW (Set_FieldMask+Write) and MR (Set_FieldMask+Read); every op line "
+                           "is non-trivial except schema lines; distinct by sha256 of the op line")
